@@ -22,6 +22,8 @@ pub struct Engine<'a, L> {
     index: HashMap<(Box<str>, Box<str>), usize>,
     // Maps index to their graph_id (" " for default graph) and node_id
     gs_id: Vec<(Box<str>, Box<str>)>,
+    // Maps each node_id to the number of graphs in which it is used
+    graph_count: HashMap<Box<str>, usize>,
     // Attributes of each node (in default graph and named graphs)
     node: Vec<HashMap<Box<str>, Vec<RdfObject>>>,
     // Maps each graph_name index to its subjects indexes
@@ -41,6 +43,7 @@ impl<'a, L> Engine<'a, L> {
             options,
             index: HashMap::new(),
             gs_id: Vec::new(),
+            graph_count: HashMap::new(),
             node: Vec::new(),
             unique_parent: HashMap::new(),
             list_seeds: Vec::new(),
@@ -116,6 +119,7 @@ impl<'a, L> Engine<'a, L> {
             .entry((g_id.clone(), s_id.clone()))
             .or_insert_with(|| {
                 let i = self.gs_id.len();
+                *self.graph_count.entry(s_id.clone()).or_default() += 1;
                 self.gs_id.push((g_id, s_id));
                 self.node.push(HashMap::new());
                 i
@@ -171,8 +175,10 @@ impl<'a, L> Engine<'a, L> {
             }
             // node 'gs_id' has a unique parent
             let (pg_id, ps_id) = &self.gs_id[*iparent];
-            if pg_id == g_id {
-                // unique parent is in the same graph
+            if pg_id == g_id && self.graph_count[s_id] == 1 {
+                // unique parent is in the same graph,
+                // and this bnode is not used in any other graph (nor as a graph name)
+                // (otherwise, rendering it as an anonymous list node would lose that link)
                 let map = &mut self.node[inode];
                 if is_list_node(map) {
                     // this node is indeed a list node
